@@ -15,7 +15,11 @@ CLAIMED = {
         'definitions), proved deterministic and fuel-monotone, and the faithful instance is proved equal to it (C04 theorem). '
         'The model is tied to the code by differential execution: every expression up to a node budget with every input over '
         '{a,b,space} up to a length bound (exhaustive) plus random grammars over the whole core language with inputs sampled '
-        'from the grammar; any disagreement is reported with a shrunk replay.',
+        'from the grammar; any disagreement is reported with a shrunk replay. Because a faithful model reproduces the places where the code '
+        'departs from the DOCUMENTATION, two implementation-only oracles stand beside it: an independent reference interpreter of the documented '
+        'AST semantics (props/c01_docref.py; every deviation class is a listed finding with the docs sentence it contradicts) and the '
+        '"one element of its caller" oracle, whose exact guard is a theorem (C01_call_one_element_exact) with a replayed refutation witness. '
+        'Also proved: a successful parse never moves backwards nor past the end of the text (clean and faithful engine).',
         'Trusted: Coq kernel, extraction, harness (IR printers, generators, canonicaliser); oracles from the real Python per case '
         '(re matches, unicode predicates, resolved ParserConfig, is_lrec/is_memo flags). Hand-written model, agreement with the code '
         'established by the correspondence only. Not modelled: tracing, error messages, @nostak, EOL, left/right joins, rule includes.',
@@ -27,27 +31,33 @@ CLAIMED = {
         'the faithful engine returns exactly what the memo-free semantics returns whenever that terminates. The model is tied to '
         'the code by running model.parse under the configuration matrix {memoization} x {perlinememos} x {prune_memos_on_cut} x '
         '{parseinfo} x {trace, colorize} and comparing every pair of outcomes with each other and with the model, on left-recursive '
-        'grammars too (implementation-vs-implementation oracle).',
+        'grammars too (implementation-vs-implementation oracle): outcome with parseinfo entries erased, the parseinfo entries themselves among '
+        'parseinfo-on settings, and the class and position of the reported failure; rules optionally @nomemo, semantics objects that reject / '
+        'raise, a retry-and-handing-on family. C04_parseinfo_only_adds_partial: at a rule invocation parseinfo changes nothing but the two reserved keys.',
         'Trusted: as C01. Tracing/colouring are not in the model (checked by the oracle only). The theorem covers non-left-recursive '
         'grammars; left-recursive ones are covered by the correspondence and oracle.',
         '7 C04'),
     'C02': (
         'Coq model of generated-code runtime (Gen.v) with name-binding theorems + G0/G2 correspondences + generated-vs-model oracle classified by the models',
-        'Gen.v models the runtime of generated parsers (names bound to last_node, define only for sequences, unoptimized grammar); proved: in the '
+        'Gen.v models the runtime of generated parsers (names bound to last_node, define only for sequences, the optimized grammar as pythongen walks it); proved: in the '
         'single-append fragment last_node is the value the named expression returned, so name binding agrees with the model interpreter; a rule call '
         'appends its value; refutation witness outside the fragment (replayed). Tied by G0 (generated source loads), G2 (real generated parser vs Gen.v, '
         'using the generated parser own configuration) and by the property oracle itself: generated parser vs model.parse under settings and semantics, '
-        'every divergence classified by the two Coq evaluators (explained = known finding, unexplained = violation).',
+        'every divergence classified by the two Coq evaluators (explained = known finding, unexplained = violation); configuration tables (incl. '
+        'keywords) of the two back-ends compared; probes for constructs outside the IR; histories on ONE reused parser object.',
         'Trusted: as C01. Whole-grammar equivalence is not proved (partial): outside the fragment the code really differs (known findings D2a-d).',
         '7 C02'),
     'C03': (
         'Coq lemmas on the seed-growing loop + correspondence on left-recursive template grammars + independent reference parser',
         'recursive_call/grow are part of the faithful engine model; proved: the loop returns the last seed of a strictly advancing chain, a grown '
         'seed is reused without running the body, the re-entrant invocation fails while seeding, left recursion off fails, grammars without '
-        'marked rules are plain PEG (C04 theorem). The property itself (termination, left fold over the longest chain, right recursion '
+        'marked rules are plain PEG (C04 theorem); the seed-growing loop is bounded by the text (C03_seed_loop_is_bounded_by_the_text: memo '
+        'entries and seeds only hold end positions inside the text - an invariant carried with the positions through every construct - so the '
+        'loop runs at most len+2 rounds); a left-recursive parse ends inside the text. The property itself (termination, left fold over the longest chain, right recursion '
         'unaffected, model = generated parser) is decided by differential execution of the model against tatsu on layered template grammars '
         '(direct, two-alternative, common-prefix, aliased, mutual, optional-prefixed, named, right-mix, unary, two layers; cuts in parentheses) '
-        'and by an independent loop-based reference parser folding to the left.',
+        'and by an independent loop-based reference parser folding to the left; list-returning and rejecting semantics on the recursive rules, '
+        'the generated parser (also one object reused over several texts), deep nesting and a selector template with a shared recursive prefix.',
         'Trusted: as C01 plus the reference parser of the check. The left-fold theorem for arbitrary grammars is not proved (partial): the theorems are about the loop.',
         '7 C03'),
     'C05': (
@@ -56,7 +66,8 @@ CLAIMED = {
         'enclosing choice/optional/repetition fail (a join commits after each separator; only a cut makes a closure fail); rule calls, choices, '
         'optionals, repetitions, lookaheads and skip groups never change the caller cut flag and report failure with the caller flag. Tied by '
         'differential execution on grammars with cuts inserted after every kind of element and inputs failing right after each lexeme, and by the '
-        'cut-scope equivalences of docs/syntax.rst checked on the implementation.',
+        'cut-scope equivalences of docs/syntax.rst checked on the implementation; a cut-scope family (outer alternatives sharing first tokens, '
+        'inner group / optional / closure / positive repetition / plain group with cuts in every option) also run through generated parsers.',
         'Trusted: as C01. Scope decision: a plain group is transparent to cuts.',
         '7 C05'),
     'C06': (
@@ -65,8 +76,11 @@ CLAIMED = {
         'with the caller cut flag and memoised as a failure, any other exception is the result of the invocation); actions that return their '
         'argument are indistinguishable from no semantics for every grammar/text (relational induction); @nomemo rules are never stored. Tied by '
         'running tatsu and the model with semantics objects drawn from {none, identity, tagging, FailedSemantics on a predicate, 8 exception '
-        'classes, constant, _default/methods}, comparing results AND the sequence of action calls; generated parser compared on failures/exceptions.',
-        'Trusted: as C01; BoundCallable signature binding only for the shapes generated. Global propagation of foreign exceptions through every construct is covered by the correspondence, the theorem is at the invocation level. Known finding: StopIteration becomes RuntimeError in generated parsers.',
+        'classes incl. tatsu non-failure classes, constant, list-wrapping, size-rejecting, _default/methods}, comparing results AND the sequence of action calls; '
+        'C06_foreign_exception_reaches_caller: for every grammar, text, configuration and fuel an exception raised by an action IS the result of parse() '
+        '(unary program logic Triple.v through every construct, the memo, seeds and the seed-growing loop; ghost log written exactly when an action raises). '
+        'Twin rule names, atoms equal across types, left-recursive rules with rejecting actions, histories of semantics objects on one parser, the exception OBJECT in generated parsers.',
+        'Trusted: as C01; BoundCallable signature binding only for the shapes generated; the action LOOKUP order is stated in the harness (enginelib.resolve_actions). Known finding: StopIteration becomes RuntimeError in generated parsers.',
         '7 C06'),
     'C11': (
         'Coq proofs of the keyword check at rule invocation + keyword grammars differential runs + oracle on bound names',
@@ -104,7 +118,9 @@ CLAIMED = {
         'compiling grammar texts is an implementation oracle: random grammars with @meta expressions x unicode texts x {TextLines, Buffer} x {parseinfo}, '
         'mutated grammar texts; exception class, hang, recursion, failure position / line info, message renders.',
         'Trusted: Coq kernel, extraction, harness; Python int()/float() acceptance (checked on every matched slice). @float is covered by the '
-        'correspondence and the oracle only (no theorem). Engine-level absence of foreign exceptions is not proved (the model raises only where modelled).',
+        'correspondence and the oracle only (no theorem). C08_engine_raises_nothing_foreign: in the engine model a fatal outcome without a raising action is '
+        'fuel exhaustion, the hang marker, an unmodelled leaf or an undefined rule (every grammar, text, configuration). Oracle families: undefined rule in every '
+        'syntactic position, rule headers and decorators, scanner settings by three channels, generated parser target.',
         '7 C08'),
     'C09': (
         'Coq proofs for the input layer and the configuration layering + input-configuration differential runs + relayout oracle',
@@ -112,8 +128,9 @@ CLAIMED = {
         'whitespace precedes them, patterns and the any-character expression look at the cursor position only; nameguard blocks exactly name tokens followed '
         'by a name character and does not affect other tokens; the effective value of every configuration field is the first defined among parse-time setting, '
         'directive, build-time setting, default (Config.v vs Config.override/hard_override). Tied by differential execution under input configurations given as '
-        'directives or settings, by K1 (real Grammar/ParserConfig vs Config.v on random setting triples) and by the metamorphic relayout oracle on the implementation.',
-        'Trusted: as C01. The whitespace-invariance statement for whole parses is decided by the oracle, not by a theorem (partial). Known finding: settings given to tatsu.compile never reach the model.',
+        'directives or settings (upper/mixed-case tokens, constants before non-skipping elements, upper-case start rules, namechars histories in one process), '
+        'by K1 (real Grammar/ParserConfig vs Config.v on random setting triples incl. empty strings), by the metamorphic relayout oracle and by reused-parser histories.',
+        'Trusted: as C01. The whitespace-invariance statement for whole parses is decided by the oracle, not by a theorem (partial). Known findings: settings given to tatsu.compile never reach the model; a closure iteration that only skips whitespace counts as progress.',
         '7 C09'),
     'C10': (
         'Coq state-machine model of the API caches (history independence invariant, schedule independence) + fresh-interpreter replay',
@@ -131,8 +148,10 @@ CLAIMED = {
         'every text and offset: inside the text all accessors equal the specification (line = breaks before pos, col = pos - line start, '
         'text = that line) for LF, CR, CRLF and the other separators; the behaviour at pos = len is characterised exactly (repaired sentinel '
         'exact; lineinfo clamps). Correspondence: all strings over {a, space, LF, CR} up to length 5/6 x all offsets x both input classes, '
-        'plus random texts with all separators; oracle: regex-split reference. The parseinfo-of-rules half is covered by the engine '
-        'correspondence with parseinfo on (C01/C04 runs) and by an implementation oracle in this check.',
+        'plus random texts with all separators, cursors parked at every offset before being asked (moved cursors); oracle: regex-split reference. '
+        'The parseinfo-of-rules half: C12_parseinfo_delimits (engine model: the ParseInfo a rule puts on its AST is (rule, start of body, exact end, '
+        'their lines) with pos <= endpos <= len) + the engine correspondence with parseinfo on (comments, trailing newlines, @nomemo rules), the '
+        'object-model family (typed rules over ASTs and nodes, three node flavours) and observers (trace / colorize / Buffer input must not change it).',
         'Trusted: Coq kernel, extraction, harness. Known finding: lineinfo(len).col is the column of the last character (clamp pinned by a shipped test for .line).',
         '7 C12'),
     'C14': (
@@ -192,7 +211,8 @@ CLAIMED = {
         'Coq proof (Rle.v, Queue.v) + extracted-model correspondence + impl oracle',
         'Coq theorems, unbounded: rle_decode(rle_encode s)=s for every string; for every interleaving of sends and '
         '(cut-short) receives with distinct ids the reader has delivered exactly the good packets of a prefix of the file, '
-        'in order, none twice, and a full read completes it; truncation inside the last record delivers only earlier packets. '
+        'in order, none twice, and a full read completes it; truncation inside the last record delivers only earlier packets; several live '
+        'receive() generators on one reader advanced in any order keep exactly-once / in-order (QueueGen.v). '
         'The models are tied to compact.py / queue.py by differential execution (exhaustive small strings, random histories, '
         'truncation at every byte offset) and by checking the regex literals in the source; pack/unpack of JSON payloads is '
         'covered by an implementation oracle only (json/asjson are not modelled).',
